@@ -23,7 +23,8 @@ ID = 'C03'
 RULE = ('seeded analytic truth motions (|lat|<=85 both hemispheres, speed <=300 m/s, 3-axis attitude sinusoids) sampled at h in '
         '{100, 50, 20} ms and h/2, each through the three input forms x two sensor types; bodies at rest at random lat / alt / attitude '
         'for h in 100..5 ms; generate_sine_velocity_motion over its parameter space; non-trivial = moving or tilted or not at lat 55 '
-        '(the existing tests: one stationary point, one gentle planar motion); distinct = generator parameters')
+        '(the existing tests: one stationary point, one gentle planar motion); distinct = generator parameters'
+        ' Round 5: rest records of 60001 samples whose sampling clock drifts by 2 ppm (neighbouring intervals 3e-13 s apart).')
 ASSUMPTIONS = ['accelerometer floor 100 eps R / h^2: the readings come from a spline second derivative of a 6.4e6 m vector (measured at rest: '
                '~20 eps R / h^2)', 'samples within 12 knots of either end carry spline end-condition error (decays ~0.27 per knot) and are '
                'checked with the shrink test only', 'for increment type the duplicated first sample is not compared']
